@@ -673,6 +673,14 @@ class SetGen(object):
         nmods = rng.randint(*p['modules'])
         for _mi in range(nmods):
             mod = self.new_module()
+            if rng.random() < p.get('p_tiny', 0.04):
+                # a module holding exactly one declaration (lists of one: exports, imports)
+                rng.choice([self.gen_node, self.gen_scalar])(mod)
+                for d in mod.decls:
+                    d.module_name = mod.name
+                self.finish_module(mod)
+                self.stats['tiny_modules'] = self.stats.get('tiny_modules', 0) + 1
+                continue
             if rng.random() < p['p_identity']:
                 self.gen_identity(mod)
             for _ in range(rng.randint(*p['nodes'])):
